@@ -376,6 +376,31 @@ func init() {
 			return rc
 		}})
 
+	// ---------------- C06: same cluster state, same behaviour, whatever the processing order
+	register(&Profile{Name: "order", Prop: "C06", Weight: 2,
+		Oracles: OracleSet{Property: "C06", OrderIndep: true, FreshAtSync: true},
+		Build: func(seed uint64, tier string) *RunConfig {
+			r := cfgRng(seed)
+			ctl := sampleCtl(r)
+			rc := &RunConfig{Property: "C06", Profile: "order", Seed: seed, Ctl: ctl, MapOrder: true, Lagfree: true}
+			// dense worlds: few hosts and paths, many ingresses, so that declarations collide
+			rc.World, rc.Ops = GenerateRun(seed, GenOptions{Sparse: r.IntN(4) == 0, NoOps: true, MaxIngresses: pickInt(r, 5, 7, 9), KeysPerRun: pickInt(r, 4, 7, 10),
+				AnnChance: 2, ExcludeIngressKeys: []string{"waf", "cert-signer"}, NoForeignClass: r.IntN(2) == 0})
+			return rc
+		}})
+	// the same after a short lag-free history: objects that were updated, deleted and re-created
+	register(&Profile{Name: "order-history", Prop: "C06", Weight: 1,
+		Oracles: OracleSet{Property: "C06", OrderIndep: true},
+		Build: func(seed uint64, tier string) *RunConfig {
+			r := cfgRng(seed)
+			mn, mx := tierOps(tier, 4, 14)
+			ctl := sampleCtl(r)
+			rc := &RunConfig{Property: "C06", Profile: "order-history", Seed: seed, Ctl: ctl, MapOrder: true, Lagfree: true}
+			rc.World, rc.Ops = GenerateRun(seed, GenOptions{Sparse: r.IntN(3) == 0, MinOps: mn, MaxOps: mx, QuiesceEvery: 4, KeysPerRun: pickInt(r, 4, 7),
+				ExcludeIngressKeys: []string{"waf", "cert-signer"}})
+			return rc
+		}})
+
 	// ---------------- C07: every generated configuration is loadable
 	register(&Profile{Name: "stress", Prop: "C07",
 		Oracles: OracleSet{Property: "C07", Loadable: true},
